@@ -2,7 +2,7 @@
    A. association lists; B. the hash-bucket map refines a plain map (any hash, collisions included);
    C. request decoding on curried views; D. CurryWith; E. every operation sequence; F. concurrency;
    G. the production hash. *)
-From Coq Require Import ZArith List Bool Arith Lia Permutation.
+From Coq Require Import ZArith List Bool Arith Lia Permutation Sorted.
 From Verif Require Import Base.Str Gen.Gen_Consts Model.Vec Proofs.Str_facts.
 Import ListNotations.
 
@@ -1365,6 +1365,58 @@ Proof.
   - intros Hin. exists e. split; [exact Hin|apply entry_eqb_eq; reflexivity].
 Qed.
 
+(* Collect output is canonical: sorting by id two lists with the same elements and pairwise distinct ids
+   gives the same list *)
+Lemma entries_eqb_refl l : entries_eqb l l = true.
+Proof. induction l as [|e l IH]; simpl; [reflexivity|]. rewrite IH, andb_true_r. apply entry_eqb_eq. reflexivity. Qed.
+
+Lemma entries_eqb_eq a : forall b, entries_eqb a b = true -> a = b.
+Proof.
+  induction a as [|x a IH]; intros [|y b]; simpl; try discriminate; [reflexivity|].
+  intros E. apply andb_true_iff in E. destruct E as [E1 E2]. apply entry_eqb_eq in E1. apply IH in E2. subst. reflexivity.
+Qed.
+
+Definition id_le (a b : entry) : Prop := (snd a <= snd b)%nat.
+
+Lemma ins_by_id_sorted e l : StronglySorted id_le l -> StronglySorted id_le (ins_by_id e l).
+Proof.
+  induction l as [|x r IH]; simpl; intros HS.
+  - constructor; constructor.
+  - inversion HS as [|? ? HS' HF]; subst. destruct (Nat.leb (snd e) (snd x)) eqn:E.
+    + apply Nat.leb_le in E. constructor; [exact HS|]. constructor; [exact E|].
+      eapply Forall_impl; [|exact HF]. intros y Hy. unfold id_le in *. lia.
+    + apply Nat.leb_gt in E. constructor; [apply IH; exact HS'|].
+      apply Forall_forall. intros y Hy. eapply Permutation_in in Hy; [|apply ins_by_id_perm].
+      destruct Hy as [Hy|Hy]; [subst; unfold id_le; lia|]. rewrite Forall_forall in HF. apply HF. exact Hy.
+Qed.
+
+Lemma sort_by_id_sorted l : StronglySorted id_le (sort_by_id l).
+Proof. induction l as [|e l IH]; simpl; [constructor|apply ins_by_id_sorted; exact IH]. Qed.
+
+Lemma sorted_perm_eq l1 : forall l2, StronglySorted id_le l1 -> StronglySorted id_le l2 ->
+  Permutation l1 l2 -> NoDup (map snd l1) -> l1 = l2.
+Proof.
+  induction l1 as [|a r1 IH]; intros l2 S1 S2 P ND.
+  - apply Permutation_nil in P. subst. reflexivity.
+  - destruct l2 as [|b r2]; [apply Permutation_sym, Permutation_nil in P; discriminate|].
+    inversion S1 as [|? ? S1' F1]; subst. inversion S2 as [|? ? S2' F2]; subst.
+    inversion ND as [|? ? Hn ND']; subst.
+    assert (Hab : a = b).
+    { assert (Ha : In a (b :: r2)) by (eapply Permutation_in; [exact P|left; reflexivity]).
+      assert (Hb : In b (a :: r1)) by (eapply Permutation_in; [apply Permutation_sym; exact P|left; reflexivity]).
+      destruct Hb as [Hb|Hb]; [exact Hb|]. destruct Ha as [Ha|Ha]; [symmetry; exact Ha|].
+      rewrite Forall_forall in F1, F2. specialize (F1 b Hb). specialize (F2 a Ha). unfold id_le in *.
+      exfalso. apply Hn. replace (snd a) with (snd b) by lia. apply in_map. exact Hb. }
+    subst b. f_equal. apply IH; try assumption. eapply Permutation_cons_inv. exact P.
+Qed.
+
+Lemma sort_by_id_perm_eq l1 l2 : Permutation l1 l2 -> NoDup (map snd l1) -> sort_by_id l1 = sort_by_id l2.
+Proof.
+  intros P ND. apply sorted_perm_eq; try apply sort_by_id_sorted.
+  - eapply Permutation_trans; [apply sort_by_id_perm|]. eapply Permutation_trans; [exact P|]. apply Permutation_sym, sort_by_id_perm.
+  - eapply Permutation_NoDup; [apply Permutation_map; apply Permutation_sym; apply sort_by_id_perm|exact ND].
+Qed.
+
 Lemma nodup_keys_NoDup l : NoDup (map fst l) -> nodup_keys l = true.
 Proof.
   induction l as [|e l IH]; simpl; intros ND; [reflexivity|].
@@ -1728,7 +1780,7 @@ Proof.
   intros (I & P & N). unfold cstep.
   destruct (nth_error (c_thr c) tid) as [th|]; [|reflexivity].
   destruct (t_todo th) as [|q rest]; [reflexivity|].
-  destruct q as [t|t|q|].
+  destruct q as [t|t|q| |].
   - destruct (t_pending th).
     + assert (G := get_tuple_refines H (c_st c) s t (vals_eqb t) I P N (pred_is_eqb t)).
       rewrite (get_or_create_eq H t (vals_eqb t) (c_st c) I (pred_is_eqb t)) in G.
@@ -1747,6 +1799,8 @@ Proof.
     destruct (delete_partial q (c_st c)) as [n st']. simpl. destruct G as (A & B & C & D). subst n.
     rewrite Z.eqb_refl. split; [reflexivity|]. split; [exact B|split; [exact C|simpl; lia]].
   - simpl. split; [reflexivity|]. split; [apply reset_inv|split; [constructor|exact N]].
+  - simpl. unfold collect. rewrite (sort_by_id_perm_eq _ _ P (inv_idnodup H _ I)), entries_eqb_refl.
+    split; [reflexivity|]. split; [exact I|split; [exact P|exact N]].
 Qed.
 
 Lemma crun_lin sched : forall c s, Rc (c_st c) s ->
@@ -1793,7 +1847,7 @@ Proof.
   assert (Hk : Nat.eqb k tid = true -> todo_of c tid = q :: rest).
   { intros E. apply Nat.eqb_eq in E. subst. unfold todo_of. rewrite Ek. exact Et. }
   assert (Hst : forall st th', todo_of (mkC st (set_nth (c_thr c) k th')) tid = todo_of (mkC (c_st c) (set_nth (c_thr c) k th')) tid) by reflexivity.
-  destruct q as [t|t|q|].
+  destruct q as [t|t|q| |].
   - destruct (t_pending th).
     + destruct (sec_create (H t) (vals_eqb t) t (c_st c)) as [id st']. simpl. rewrite Hst, Hset.
       destruct (Nat.eqb k tid) eqn:E; [apply Hk; reflexivity|reflexivity].
@@ -1803,6 +1857,7 @@ Proof.
   - destruct (delete_partial q (c_st c)) as [n st']. simpl. rewrite Hst, Hset.
     destruct (Nat.eqb k tid) eqn:E; [apply Hk; reflexivity|reflexivity].
   - simpl. rewrite Hst, Hset. destruct (Nat.eqb k tid) eqn:E; [apply Hk; reflexivity|reflexivity].
+  - simpl. rewrite Hset. destruct (Nat.eqb k tid) eqn:E; [apply Hk; reflexivity|reflexivity].
 Qed.
 
 Lemma crun_program sched : forall c tid,
